@@ -37,7 +37,7 @@ INTERP_OPS = ['setup_interp', 'mk_domain', 'add_domain', 'new_finite_domain', 'm
 
 def plan(prop, tier):
     if tier == 'quick':
-        return {'runs': 6000 if prop == 'C16' else 5000, 'cap': 20.0, 'det_runs': 60}
+        return {'runs': 6000 if prop == 'C16' else 5000, 'cap': 20.0, 'det_runs': 60, 'legs': [{'hashseed': h} for h in (0, 1, 2, 3)]}
     return {'cap': 30.0, 'budget_s': 900, 'legs': [{'hashseed': h} for h in (0, 1, 2, 3, 4, 5, 6, 7)]}
 
 
